@@ -549,3 +549,54 @@ Fixpoint strictT (b : bstate) (t : list (sev * list out)) : bool :=
 (* no Accounting-Response arrives for a session released while it was outstanding *)
 Definition no_late (evs : list sev) : bool :=
   forallb (fun ev => match ev with ELate _ => false | _ => true end) evs.
+
+(* ------------------------------------------------------------------ *)
+(* Per counter.  The monotonicity clause is per counter, and so is its domain: only the counter whose own true total
+   reaches 2^64 in a report is outside it, the other three are not. *)
+Record b4 := B4 { w_rxb : bool; w_txb : bool; w_rxp : bool; w_txp : bool }.
+Definition b4_none : b4 := B4 false false false false.
+Definition b4_any (w : b4) : bool := w_rxb w || w_txb w || w_rxp w || w_txp w.
+Definition b4_or (a b : b4) : b4 := B4 (w_rxb a || w_rxb b) (w_txb a || w_txb b) (w_rxp a || w_rxp b) (w_txp a || w_txp b).
+(* counter k of this report wrapped: reading below the baseline, or (reading - baseline) + prior >= 2^64 *)
+Definition wrap1 (st bs pr : N) : bool := N.ltb st bs || N.leb W ((st - bs) + pr).
+Definition apply_wraps4 (v : variant) (e : sess) (st : c4) : b4 :=
+  let e' := rebase v e st in
+  B4 (wrap1 (rxb st) (rxb (base e')) (rxb (prior e'))) (wrap1 (txb st) (txb (base e')) (txb (prior e')))
+     (wrap1 (rxp st) (rxp (base e')) (rxp (prior e'))) (wrap1 (txp st) (txp (base e')) (txp (prior e'))).
+Definition report_wraps4 (v : variant) (g tick : bool) (e : sess) (sn : snaps) : b4 :=
+  match reading v g tick e sn with Some st => apply_wraps4 v e st | None => b4_none end.
+Definition lstep_wraps4 (v : variant) (g : bool) (s : sst) (ev : sev) : b4 :=
+  match ev, cache s with
+  | EReleased sn, Some e => report_wraps4 v g false e sn
+  | ETick sn _, Some e => if inb s then report_wraps4 v g true e sn else b4_none
+  | _, _ => b4_none
+  end.
+(* the trace with, for every step, the counters that wrapped in it *)
+Fixpoint lrun4 (v : variant) (g : bool) (s : sst) (evs : list sev) : list (sev * list out * b4) :=
+  match evs with
+  | [] => []
+  | ev :: r => (ev, snd (lstep v g s ev), lstep_wraps4 v g s ev) :: lrun4 v g (fst (lstep v g s ev)) r
+  end.
+Fixpoint lrun_wraps4 (v : variant) (g : bool) (s : sst) (evs : list sev) : b4 :=
+  match evs with
+  | [] => b4_none
+  | ev :: r => b4_or (lstep_wraps4 v g s ev) (lrun_wraps4 v g (fst (lstep v g s ev)) r)
+  end.
+
+(* every value SENT is, counter by counter, not below the previous value sent in the bracket - except for a counter
+   that wrapped in that very report *)
+Definition c4_leb_w (w : b4) (a b : c4) : bool :=
+  (w_rxb w || N.leb (rxb a) (rxb b)) && (w_txb w || N.leb (txb a) (txb b)) &&
+  (w_rxp w || N.leb (rxp a) (rxp b)) && (w_txp w || N.leb (txp a) (txp b)).
+Fixpoint mono_outs (w : b4) (prev : c4) (l : list out) : bool * c4 :=
+  match l with
+  | [] => (true, prev)
+  | Start :: r => mono_outs w c4z r
+  | Interim c _ :: r => let (ok, p) := mono_outs w c r in (c4_leb_w w prev c && ok, p)
+  | Stop c :: r => let (ok, p) := mono_outs w c4z r in (c4_leb_w w prev c && ok, p)
+  end.
+Fixpoint mono4 (prev : c4) (t : list (sev * list out * b4)) : bool :=
+  match t with
+  | [] => true
+  | (_, o, w) :: r => let (ok, p) := mono_outs w prev o in ok && mono4 p r
+  end.
